@@ -3,14 +3,18 @@ import json
 import os
 import threading
 
-from .common import (BUILD, DRIVER, HARNESS, Result, count_lines, first_difference, log, sh, standard_build)
+from .common import (BUILD, Result, count_lines, driver_path, first_difference, harness_path, sh, standard_build)
+
+DRIVER = driver_path("c13")
+HARNESS = harness_path("c13")
 
 PROP = "C13"
 
 
 def run(tier):
     res = Result(PROP, tier, "proof")
-    st = standard_build(res, PROP)
+    st = standard_build(res, PROP, group="c13", harness_bin="c13",
+                        model_deps=["theories/Model/SyllableViews.vo", "theories/Model/SyllableSearch.vo"])
     work = os.path.join(BUILD, "work", "%s-%s" % (PROP, tier))
     os.makedirs(work, exist_ok=True)
     impl, model, orc = (os.path.join(work, x) for x in ("views.impl", "views.model", "oracle.json"))
@@ -20,13 +24,13 @@ def run(tier):
     out = {}
 
     def run_model():
-        out["model"] = sh([DRIVER, "c13", "views", tier, model], timeout=3000) if st["extract"] else (1, "no driver", 0)
+        out["model"] = sh([DRIVER, "views", tier, model], timeout=3000) if st["extract"] else (1, "no driver", 0)
 
     th = threading.Thread(target=run_model)
     th.start()
     if st["cargo"]:
-        out["impl"] = sh([HARNESS, "c13", "views", tier, impl], timeout=3000)
-        out["oracle"] = sh([HARNESS, "c13", "oracle", tier, orc], timeout=3000)
+        out["impl"] = sh([HARNESS, "views", tier, impl], timeout=3000)
+        out["oracle"] = sh([HARNESS, "oracle", tier, orc], timeout=3000)
     th.join()
 
     # --- property oracles on the implementation (failing-input search) ---
@@ -41,7 +45,7 @@ def run(tier):
         except (OSError, ValueError) as e:
             st["broken"].append({"obligation": "oracle-run", "detail": "%r\n%s" % (e, out.get("oracle", ("", ""))[1][-2000:])})
     for f in oracle_fail[:5]:
-        res.add_violation("oracle-" + f["oracle"], {"kind": "input", "signature": f["oracle"], "driver": "vharness c13 replay",
+        res.add_violation("oracle-" + f["oracle"], {"kind": "input", "signature": f["oracle"], "driver": "c13 replay",
                                                      "input": f["input"], "detail": f["detail"]}, True)
 
     # --- correspondence: model views vs implementation views (exhaustive) ---
@@ -63,14 +67,14 @@ def run(tier):
     if st["broken"] and not oracle_fail:
         found = False
         if st["extract"] and st["cargo"]:
-            rc, sout, _ = sh([DRIVER, "c13", "search"], timeout=600)
+            rc, sout, _ = sh([DRIVER, "search"], timeout=600)
             for line in sout.splitlines():
                 if line.startswith("WITNESS parse-not-canonical"):
                     chars = ",".join(line.split()[2:])
-                    rc2, rout, _ = sh([HARNESS, "c13", "replay", chars], timeout=60)
+                    rc2, rout, _ = sh([HARNESS, "replay", chars], timeout=60)
                     if rc2 == 1:
                         found = True
-                        res.add_violation("model-witness", {"kind": "input", "signature": "parse-not-canonical", "driver": "vharness c13 replay",
+                        res.add_violation("model-witness", {"kind": "input", "signature": "parse-not-canonical", "driver": "c13 replay",
                                                            "input": chars, "detail": rout.strip(), "broken": st["broken"]}, True)
         if not found:
             for b in st["broken"]:
@@ -90,7 +94,7 @@ def run(tier):
 def replay(path):
     r = json.load(open(path))
     if r.get("kind") == "input" and r.get("signature") in ("parse-not-canonical",):
-        rc, out, _ = sh([HARNESS, "c13", "replay", r["input"]])
+        rc, out, _ = sh([HARNESS, "replay", r["input"]])
         print(out)
         return rc
     print(json.dumps(r, ensure_ascii=False, indent=1))
